@@ -8,7 +8,10 @@ import (
 	"sync"
 
 	theine "github.com/Yiling-J/theine-go"
+	"github.com/Yiling-J/theine-go/internal"
 )
+
+type internalEntry = internal.VerifEntry[int, int]
 
 // C09 — admission quality: frequently read entries survive one-off insertions,
 // and on skewed traces the cache is at least as good as LRU; also after the
@@ -172,6 +175,20 @@ func (cc *c09Cache) close() {
 	}
 }
 
+// split returns (protected capacity, window capacity) of the adaptive policy.
+func (cc *c09Cache) split() (int, int) {
+	var pc, wc uint
+	switch cc.kind {
+	case "plain":
+		pc, wc = cc.c.VerifStore().VerifSplit()
+	case "loading":
+		pc, wc = cc.lc.VerifStore().VerifSplit()
+	default:
+		pc, wc = cc.hc.VerifStore().VerifSplit()
+	}
+	return int(pc), int(wc)
+}
+
 func (cc *c09Cache) wait() {
 	switch cc.kind {
 	case "plain":
@@ -183,35 +200,49 @@ func (cc *c09Cache) wait() {
 	}
 }
 
-// preuse: a phase of concurrent reads and writes by 32 goroutines on a
-// disjoint key range.
-func (cc *c09Cache) preuse(rng *rand.Rand, maxsize int) int {
-	const G = 32
-	ops := 3000 + 40*maxsize/G
-	if ops > 60000 {
-		ops = 60000
+// preuse: the same workload as the measured trace (same hot set and insert
+// mix, or the same Zipf distribution), executed by 32 goroutines at once, plus
+// a few Deletes of one-off keys. Only the *manner* of use differs between the
+// fresh and the pre-used arm of a configuration - concurrently exercised
+// buffers, queue, sketch and lists - not the key population: a pre-use phase
+// on an unrelated population measures adaptation to a workload shift, which
+// the property does not claim (see DESIGN.md, C09, corrected false alarm).
+// The keys touched are returned round-robin merged (negative = deleted) so the
+// reference LRU is warmed with the same stream.
+var c09PreuseG = 32
+
+func (cc *c09Cache) preuse(rng *rand.Rand, cfg c09Cfg, hot []int) (int, []int) {
+	G := c09PreuseG
+	ops := cfg.Requests / 4 / G
+	if ops > 60000*32/G {
+		ops = 60000 * 32 / G
 	}
+	streams := make([][]int, G)
 	var wg sync.WaitGroup
 	for g := 0; g < G; g++ {
 		wr := rand.New(rand.NewSource(rng.Int63()))
 		wg.Add(1)
-		go func() {
+		go func(g int) {
 			defer wg.Done()
+			mine := make([]int, 0, ops)
+			var z *rand.Zipf
+			if cfg.Workload == "zipf" {
+				z = rand.NewZipf(wr, cfg.ZipfS, 1, uint64(cfg.MaxSize*20))
+			}
+			fresh := 1<<29 + g<<22
 			for i := 0; i < ops; i++ {
-				k := 1<<29 + wr.Intn(2*maxsize+10)
-				switch x := wr.Intn(10); {
-				case x < 6:
-					switch cc.kind {
-					case "plain":
-						cc.c.Get(k)
-					case "loading":
-						_, _ = cc.lc.Get(context.Background(), k)
-					default:
-						_, _, _ = cc.hc.Get(k)
-					}
-				case x < 9:
-					cc.insert(k)
-				default:
+				switch {
+				case z != nil:
+					k := int(z.Uint64())
+					mine = append(mine, k)
+					cc.read(k)
+				case wr.Intn(cfg.Reads+cfg.Inserts) < cfg.Reads:
+					k := hot[wr.Intn(len(hot))]
+					mine = append(mine, k)
+					cc.read(k)
+				case wr.Intn(20) == 0 && fresh > 1<<29+g<<22:
+					k := fresh - wr.Intn(imax(1, (fresh-(1<<29+g<<22))%64))
+					mine = append(mine, -k)
 					switch cc.kind {
 					case "plain":
 						cc.c.Delete(k)
@@ -220,13 +251,32 @@ func (cc *c09Cache) preuse(rng *rand.Rand, maxsize int) int {
 					default:
 						_ = cc.hc.Delete(k)
 					}
+				default:
+					fresh++
+					mine = append(mine, fresh)
+					cc.insert(fresh)
 				}
 			}
-		}()
+			streams[g] = mine
+		}(g)
 	}
 	wg.Wait()
 	cc.wait()
-	return G * ops
+	merged := make([]int, 0, G*ops)
+	for i := 0; i < ops; i++ {
+		for g := 0; g < G; g++ {
+			merged = append(merged, streams[g][i])
+		}
+	}
+	return G * ops, merged
+}
+
+func (l *refLRU) remove(k int) {
+	if n, ok := l.m[k]; ok {
+		l.unlink(n)
+		delete(l.m, k)
+		l.used -= n.cost
+	}
 }
 
 // ---- traces
@@ -253,21 +303,12 @@ func c09Trace(r *Run, idx int, cfg c09Cfg) {
 	}
 	defer cc.close()
 	pre := 0
-	if cfg.PreUsed {
-		pre = cc.preuse(rng, cfg.MaxSize)
-	}
 	cost := c09Cost(cfg.Mixed)
 	lru := newRefLRU(cfg.MaxSize)
-	state := "fresh"
-	if cfg.PreUsed {
-		state = "pre-used"
-	}
-	res := map[string]any{"config": cfg, "preuse_ops": pre}
-	switch cfg.Workload {
-	case "hot":
-		// hot set: keys 0..H-1 whose costs sum to <= HotFrac*MaxSize
-		var hot []int
-		sum := 0
+	// hot set: keys 0..H-1 whose costs sum to <= HotFrac*MaxSize
+	var hot []int
+	sum := 0
+	if cfg.Workload == "hot" {
 		for k := 0; ; k++ {
 			c := int(cost(k))
 			if float64(sum+c) > cfg.HotFrac*float64(cfg.MaxSize) {
@@ -279,10 +320,41 @@ func c09Trace(r *Run, idx int, cfg c09Cfg) {
 		if len(hot) == 0 {
 			hot, sum = []int{0}, 1
 		}
+	}
+	if cfg.PreUsed {
+		var keys []int
+		pre, keys = cc.preuse(rng, cfg, hot)
+		for _, k := range keys {
+			if k < 0 {
+				lru.remove(-k)
+			} else {
+				lru.access(k, int(cost(k)))
+			}
+		}
+	}
+	state := "fresh"
+	if cfg.PreUsed {
+		state = "pre-used"
+	}
+	res := map[string]any{"config": cfg, "preuse_ops": pre}
+	switch cfg.Workload {
+	case "hot":
 		fresh := 1 << 24
 		var hotReads, hotHits, lruHits int
 		tailFrom := cfg.Requests * 3 / 4
+		// white-box: the adaptive split at 16 points of the measured quarter (evidence for the cause key only)
+		minProtCap, maxWinCap := int(^uint(0)>>1), 0
+		sampleEvery := (cfg.Requests - tailFrom) / 16
 		for i := 0; i < cfg.Requests; i++ {
+			if i >= tailFrom && (i-tailFrom)%sampleEvery == 0 {
+				pc, wc := cc.split()
+				if pc < minProtCap {
+					minProtCap = pc
+				}
+				if wc > maxWinCap {
+					maxWinCap = wc
+				}
+			}
 			if rng.Intn(cfg.Reads+cfg.Inserts) < cfg.Reads {
 				k := hot[rng.Intn(len(hot))]
 				h := cc.read(k)
@@ -305,13 +377,22 @@ func c09Trace(r *Run, idx int, cfg c09Cfg) {
 		hr := float64(hotHits) / float64(imax(hotReads, 1))
 		res["hot_keys"], res["hot_cost"], res["hot_reads_in_last_quarter"], res["hit_ratio_last_quarter"] = len(hot), sum, hotReads, hr
 		res["lru_hit_ratio_last_quarter"] = float64(lruHits) / float64(imax(hotReads, 1))
+		res["min_protected_capacity_in_last_quarter"], res["max_window_capacity_in_last_quarter"] = minProtCap, maxWinCap
 		r.Count("hot_reads_measured", int64(hotReads))
 		r.CountMax("max_hot_miss_permille", int64((1-hr)*1000))
 		if hotReads < 1000 {
 			r.Inconclusive(1)
 		} else if hr < c09HotThreshold {
-			r.Violate(fmt.Sprintf("hot-set-lost/%s/%s", cfg.Kind, state),
-				fmt.Sprintf("hot set of %d keys (cost %d of MaxSize %d, %s cache, %s) read %d:%d against one-off inserts: hit ratio over the last quarter of %d requests is %.4f < %.2f", len(hot), sum, cfg.MaxSize, cfg.Kind, state, cfg.Reads, cfg.Inserts, cfg.Requests, hr, c09HotThreshold), res)
+			key := fmt.Sprintf("hot-set-lost/%s/%s", cfg.Kind, state)
+			if minProtCap < sum && cfg.MaxSize <= 1000 && hr >= 0.70 {
+				// the open finding, identified by what was observed on the unchanged tree over 1620 hot-set
+				// traces: the hill climber grows the window until the protected region is smaller than the
+				// hot set; seen at MaxSize 50..1000 (never at >= 10000), hit ratio never below 0.818.
+				// Anything outside those observed bounds, or without the squeeze, is a new violation.
+				key = "hot-set-lost/adaptive-window-squeezed-protected-below-hot-set/maxsize<=1000/hit-ratio>=0.70"
+			}
+			r.Violate(key,
+				fmt.Sprintf("hot set of %d keys (cost %d of MaxSize %d, %s cache, %s) read %d:%d against one-off inserts: hit ratio over the last quarter of %d requests is %.4f < %.2f (protected capacity fell to %d, window capacity rose to %d during that quarter)", len(hot), sum, cfg.MaxSize, cfg.Kind, state, cfg.Reads, cfg.Inserts, cfg.Requests, hr, c09HotThreshold, minProtCap, maxWinCap), res)
 		}
 	case "zipf":
 		z := rand.NewZipf(rng, cfg.ZipfS, 1, uint64(cfg.MaxSize*20))
@@ -381,6 +462,17 @@ func c09Configs(r *Run) []c09Cfg {
 }
 
 func runC09(r *Run) {
+	if r.Args["diag"] != "" {
+		c09Diag(r)
+		return
+	}
+	if r.Args["control"] != "" {
+		// control experiment: one pre-used Zipf trace, pre-use run by g goroutines
+		c09PreuseG = mustAtoi(r.Args["g"], 32)
+		r.Args["dump"] = "1"
+		c09Trace(r, 0, c09Cfg{Workload: "zipf", Kind: "plain", MaxSize: mustAtoi(r.Args["m"], 10000), ZipfS: 1.1, PreUsed: r.Args["pre"] != "0", Requests: 600000})
+		return
+	}
 	r.Rule("case = one generated trace on one cache: hot-set (hot keys costing <= f*MaxSize read r:i against never-read-again inserts; hit ratio of hot reads over the last quarter) or Zipf (hit ratio vs a cost-aware reference LRU of the same capacity fed the same trace); optionally preceded by a 32-goroutine read/write phase. Non-trivial = every trace; distinct by (workload, cache kind, MaxSize, hot fraction, mix, skew, costs, pre-used)")
 	r.Assume("a hit = answered from the memory tier without running the loader / consulting the secondary store",
 		"thresholds 0.97 (hot set) and LRU-0.005 (Zipf) are set inside the margins measured on the repaired tree; the traces are PRNG-determined per seed")
@@ -412,4 +504,46 @@ func runC09(r *Run) {
 		}
 	}
 	parMap(len(mine), 2, func(i int) { c09Trace(r, i, mine[i]) })
+}
+
+// c09Diag runs one hot-set trace on a plain cache and prints, per period, the
+// adaptive split and where the hot keys live (diagnosis aid, not a check).
+func c09Diag(r *Run) {
+	m := mustAtoi(r.Args["m"], 50)
+	ins := mustAtoi(r.Args["ins"], 4)
+	req := mustAtoi(r.Args["req"], 200000)
+	period := mustAtoi(r.Args["period"], 5000)
+	rng := r.Rng(int64(mustAtoi(r.Args["stream"], 9000)))
+	cc, _ := newC09Cache("plain", m, false)
+	defer cc.close()
+	hot := m / 2
+	fresh := 1 << 24
+	hits, reads := 0, 0
+	for i := 0; i < req; i++ {
+		if rng.Intn(1+ins) < 1 {
+			reads++
+			if cc.read(rng.Intn(hot)) {
+				hits++
+			}
+		} else {
+			fresh++
+			cc.insert(fresh)
+		}
+		if (i+1)%period == 0 {
+			cc.wait()
+			sn := cc.c.VerifStore().VerifSnapshot()
+			in := func(l []internalEntry) int {
+				n := 0
+				for _, e := range l {
+					if e.Key < hot {
+						n++
+					}
+				}
+				return n
+			}
+			fmt.Printf("req=%7d hr=%.3f wcap=%3d pcap=%3d | hot in window=%2d probation=%2d protected=%2d | sizes w=%d pb=%d pt=%d\n", i+1, float64(hits)/float64(imax(reads, 1)),
+				sn.Window.Capacity, sn.Protected.Capacity, in(sn.Window.Entries), in(sn.Probation.Entries), in(sn.Protected.Entries), sn.Window.Len, sn.Probation.Len, sn.Protected.Len)
+			hits, reads = 0, 0
+		}
+	}
 }
